@@ -354,6 +354,150 @@ def first_error_stops(ctx, rule, fn, who):
     return n
 
 
+def order_method(ctx, rule, fn, vis, who):
+    """children are visited in field order: for two children of one variant, the visit of the later field never precedes
+    (can never be followed by) the visit of the earlier one"""
+    F, rep = ctx.F, ctx.rep
+    if fn.argc < 2:
+        return 0
+    node, prefix = node_of(fn.local_ty(2))
+    if node is None or node not in F.adts:
+        return 0
+    exp = expected_children(F, node, prefix, vis)
+    if len(exp) < 2:
+        return 0
+    lab = Labels(F, fn, {(fn.path, 2): {()}}, extend=extend_label)
+    from ..guards import _closure_use
+    sites = {}
+
+    def anchor_of(body, bi):
+        """blocks of fn at which the site executes"""
+        if body.path == fn.path:
+            return {bi}
+        use = _closure_use(F, body)
+        if use is None:
+            return set()
+        parent, cb, ct = use
+        nm = ct["callee"].get("name")
+        out = set()
+        if nm in LAZY and "indirect" not in ct["callee"]:
+            # evaluated where the lazy iterator is consumed
+            frontier, seen = [cb], set()
+            while frontier:
+                src = frontier.pop()
+                if src in seen:
+                    continue
+                seen.add(src)
+                for b2, t2 in parent.calls():
+                    if b2 != src and any(d[0] == "call" and d[1] == src for a in t2["args"] for d, _ in origins(parent, a)):
+                        if t2["callee"].get("name") in LAZY:
+                            frontier.append(b2)
+                        else:
+                            out |= anchor_of(parent, b2)
+            return out
+        return anchor_of(parent, cb)
+    for body in F.with_closures(fn):
+        for bi, t in body.calls():
+            if is_visit_call(t) and len(t["args"]) >= 2:
+                ls = lab.op_labels(body, t["args"][1])
+                for L in exp:
+                    if any(covers(l, L, vis) for l in ls):
+                        sites.setdefault(L, set()).update(anchor_of(body, bi))
+    n = 0
+    for i, L1 in enumerate(exp):
+        for L2 in exp[i + 1:]:
+            v1 = L1[-1][1].split(".")[0] if "." in L1[-1][1] else None
+            v2 = L2[-1][1].split(".")[0] if "." in L2[-1][1] else None
+            if v1 != v2 or L1 not in sites or L2 not in sites:
+                continue
+            n += 1
+            bad = None
+            for a in sites[L1]:
+                for b in sites[L2]:
+                    if a != b and a in fn.reachable(b) and b not in fn.reachable(a):
+                        bad = (a, b)
+                    elif a != b and a in fn.reachable(b) and b in fn.reachable(a):
+                        bad = None  # both in one loop: not decided here
+            ok = bad is None
+            rep.ob(rule, "%s::%s::%s<%s" % (who, fn.name, lstr(L1), lstr(L2)), ok,
+                   "" if ok else "in %s child `%s` is visited after child `%s`, although it is declared before it: callbacks are presented out of field order" % (fn.path, lstr(L1), lstr(L2)),
+                   fn.loc(fn.term(bad[0])["line"]) if bad else fn.loc(), how="visited in declaration order")
+    return n
+
+
+SHORT_CIRCUIT = ("try_fold", "try_for_each", "try_rfold", "try_collect")
+
+
+def lazy_consumers(ctx, rule, fn, who):
+    F, rep = ctx.F, ctx.rep
+    n = 0
+    for body in F.with_closures(fn):
+        for bi, t in body.calls():
+            c = t["callee"]
+            if "indirect" in c or c.get("name") not in LAZY or not t["args"]:
+                continue
+            holds = False
+            for a in t["args"][1:]:
+                l = op_local(a)
+                if l is None:
+                    continue
+                ty = body.local_ty(l).peel_refs()
+                if ty.kind() == "closure":
+                    cf = F.fn(ty.d["closure"])
+                    if cf is not None and contains_visit(F, cf):
+                        holds = True
+            if not holds:
+                continue
+            n += 1
+            # consumers: calls that receive the iterator (through further lazy adaptors)
+            frontier = [bi]
+            seen = set()
+            consumers = []
+            while frontier:
+                src = frontier.pop()
+                if src in seen:
+                    continue
+                seen.add(src)
+                for b2, t2 in body.calls():
+                    if b2 == src or not t2["args"]:
+                        continue
+                    if not any(d[0] == "call" and d[1] == src for a in t2["args"] for d, _ in origins(body, a)):
+                        continue
+                    c2 = t2["callee"]
+                    nm = c2.get("name")
+                    if nm in LAZY and "indirect" not in c2 and (c2.get("def") or "").startswith(("std::iter::", "core::iter::")):
+                        frontier.append(b2)
+                    elif nm in ("drop", "drop_in_place"):
+                        continue
+                    else:
+                        consumers.append((b2, t2))
+            key = "%s::%s::%s@%s" % (who, fn.name, c.get("name"), body.path.rsplit("::", 1)[-1] if body.kind == "closure" else "body")
+            if body.term(bi)["dest"]["l"] == 0 and not consumers:
+                # the lazy iterator itself is returned: its consumer is the caller's business
+                rep.ob(rule, key, True, "", body.loc(t["line"]), how="returned to the caller")
+                continue
+            bad = None
+            for b2, t2 in consumers:
+                c2 = t2["callee"]
+                nm = c2.get("name")
+                d2 = c2.get("def") or ""
+                if d2 == "analysis::visit::combine_all" or nm in SHORT_CIRCUIT:
+                    continue
+                if nm == "collect" and body.local_ty(t2["dest"]["l"]).s.startswith(("std::result::Result<", "std::option::Option<")):
+                    continue
+                bad = (b2, t2)
+                break
+            ok = bad is None and bool(consumers)
+            why = ""
+            if bad is not None:
+                why = "the visits mapped lazily at line %s are consumed by %s (line %s), which drains the iterator: after the first error the remaining children are still visited" % (
+                    t["line"], bad[1]["callee"].get("def"), bad[1]["line"])
+            elif not consumers:
+                why = "the lazily mapped visits at line %s are never consumed" % t["line"]
+            rep.ob(rule, key, ok, why, body.loc(t["line"]), how="consumed by %s" % sorted({x[1]["callee"].get("name") for x in consumers}))
+    return n
+
+
 @prop("C16")
 def c16(ctx):
     F = ctx.F
@@ -429,6 +573,31 @@ def c16(ctx):
             n5 += first_error_stops(ctx, "C16.R5", F.fn(d), "runner")
     rep.notes["C16.R5.pairs"] = n5
     rep.notes["C16.R1.methods"] = n_methods
+    # lazily mapped visits must be drained by a short-circuiting consumer
+    rep.rule("C16.R6", "a lazy iterator whose closure visits (children.iter().map(|c| self.visit_x(c))) is consumed only by a short-circuiting "
+             "consumer -- combine_all (try_fold, decided by R3), try_fold, try_for_each, or collect into a Result --: fold, for_each, "
+             "count, last, collect into a Vec ... drain it, so the callbacks after the first error still run")
+    n6 = 0
+    todo = []
+    for m in trait_methods(F, VE):
+        if m["has_default"] and F.fn(m["def"]):
+            todo.append((F.fn(m["def"]), "VisitExpr-default"))
+    for m in trait_methods(F, VP):
+        if m["has_default"] and F.fn(m["def"]):
+            todo.append((F.fn(m["def"]), "VisitProgram-default"))
+        d = overridden.get(m["name"])
+        if d and F.fn(d):
+            todo.append((F.fn(d), "runner"))
+    for fn, who in todo:
+        n6 += lazy_consumers(ctx, "C16.R6", fn, who)
+    rep.floor("C16.R6", n6, 6, "lazily mapped visits")
+    rep.rule("C16.R7", "children in field order: for two visitable children of one node (same variant), the call site that visits the field "
+             "declared later is never followed by the one that visits the field declared earlier (closures are placed where they "
+             "run: eager combinators at their call, lazily mapped closures at the consumer of the iterator)")
+    n7 = 0
+    for fn, who in todo:
+        n7 += order_method(ctx, "C16.R7", fn, vis_both if who == "runner" else (vis_e if who == "VisitExpr-default" else vis_p), who)
+    rep.floor("C16.R7", n7, 1, "ordered child pairs")
 
     # ---- R2 bridge
     bridged = {m["name"]: m["def"] for m in bridge_impl["methods"]}
